@@ -130,14 +130,17 @@ def groups_term(gs):
     return vlib.coq_list(["(%s, %s)" % (cstr(g[0]), vlib.coq_list([ent_term(e) for e in g[1]])) for g in gs])
 
 
-MODE = {"stream": "MStream", "txn": "MTxn", "http": "MHttp", "proxy": "MProxy"}
+MODE = {"stream": "MStream", "txn": "MTxn", "http": "MHttp", "proxy": "MProxy", "source": "MSource"}
 
 
 def term(c, o):
     post = o.get("post") or {}
     post2 = o.get("post2") or {}
+    pages = vlib.coq_list(["{| p_toks := %s; p_eof := %s; po_outcome := %d%%N; po_ents := %s |}" % (
+        toks_term(pg.get("tokens") or []), vlib.coq_bool(pg.get("eof", False)), OUTCOME.get(pg["outcome"], 9),
+        vlib.coq_list([ent_term(e) for e in (pg.get("groups") or [["", []]])[0][1]])) for pg in (o.get("pages") or [])])
     return ("{| c_mode := %s; c_toks := %s; c_eof := %s; c_post := %s; c_post_eof := %s; c_ordered := %s; "
-            "c_has2 := %s; c_post2 := %s; c_post2_eof := %s; o_outcome := %d%%N; "
+            "c_has2 := %s; c_post2 := %s; c_post2_eof := %s; c_pages := @PAGES@; o_outcome := %d%%N; "
             "o_groups := %s; o_ns := %s; o_status := %d%%N; o_status2 := %d%%N; o_token := %s |}" % (
                 MODE[c["mode"]], toks_term(o.get("tokens") or []), vlib.coq_bool(o.get("eof", False)),
                 toks_term(post.get("tokens") or []), vlib.coq_bool(post.get("eof", False)),
@@ -147,7 +150,7 @@ def term(c, o):
                 vlib.coq_list(["(%s, %s)" % (cstr(k), cstr(x)) for k, x in (o.get("ns") or [])]),
                 STATUS.get(o.get("status", 0), 9) if c["mode"] == "http" else 0,
                 STATUS.get(o.get("status2", 0), 9) if (c["mode"] == "http" and c.get("body2")) else 0,
-                cstr(o.get("token") or "")))
+                cstr(o.get("token") or ""))).replace("@PAGES@", pages)
 
 
 def predict_text(c, o):
@@ -422,6 +425,64 @@ def proxy_page_case(rng, g, i):
     return mk("proxy", body, tag, fn=FNS[rng.below(4)] if i % 2 else "changes-raw")
 
 
+def source_case(rng, g, i):
+    """the documents ONE HTTPDatasetSource object reads one after the other; the @contexts differ: the same prefix bound to
+    another expansion (used in ids, property keys, reference keys and reference values), a prefix used but not declared"""
+    e1, e2 = rng.choice(EXPANSIONS), rng.choice(EXPANSIONS)
+    while e2 == e1:
+        e2 = rng.choice(EXPANSIONS)
+    pfx = rng.choice(["p", "a", "ns3", "_x"])
+
+    def page(exp, k, declare=True, default=None):
+        ns = {}
+        if declare:
+            ns[pfx] = exp
+        if default:
+            ns["_"] = default
+        ents = ['{"id":"%s:s%d_%d","props":{"%s:name":"v%d","%s:n":%d},"refs":{"%s:knows":"%s:o%d","%s:all":["%s:x","%s:y"]}}' % (
+            pfx, k, j, pfx, k, pfx, j, pfx, pfx, j, pfx, pfx, pfx) for j in range(rng.range(1, 4))]
+        if default and rng.chance(1, 2):
+            ents.append('{"id":"plain%d","props":{"name":"d"},"refs":{"knows":"other"}}' % k)
+        tail = [',{"id":"@continuation","token":"t%d"}' % k] if rng.chance(2, 3) else []
+        return "[" + json.dumps({"id": "@context", "namespaces": ns}) + "," + ",".join(ents) + "".join(tail) + "]"
+
+    kind = i % 4
+    if kind == 0:
+        pages = [page(e1, 1), page(e2, 2)]
+        tag = "source-rebind"
+    elif kind == 1:
+        pages = [page(e1, 1), page(e2, 2), page(e1, 3, declare=False)]
+        tag = "source-undeclared"
+    elif kind == 2:
+        pages = [page(e1, 1, default=e2), page(e2, 2, default=e1), page(e1, 3, declare=True)]
+        if rng.chance(1, 2):
+            pages.append('[{"id":"@context","namespaces":{}},{"id":"plain9"}]')
+        tag = "source-default"
+    else:
+        pages = [jtext(g.collection(n=rng.range(1, 4))) for _ in range(rng.range(2, 3))]
+        if rng.chance(1, 2):
+            t = g.collection(n=rng.range(2, 5))
+            mutate_tree(rng, t)
+            pages.insert(rng.below(len(pages) + 1), jtext(t))
+        tag = "source-mixed"
+    return {"mode": "source", "body": "", "b64": False, "kind": tag, "pages": pages}
+
+
+def public_case(rng, i):
+    """a dataset with publicNamespaces, one of them not yet known to the hub: GET before first use, a POST that creates an
+    entity, a GET, a POST that only UPDATES that entity and brings the other public namespace, GET, parse back"""
+    n1 = "http://pub%d.org/people/" % rng.range(1, 99)
+    n2 = "http://pub%d.org/schema/" % rng.range(100, 199) if i % 3 else rng.choice(EXPANSIONS)
+    ctx = json.dumps({"id": "@context", "namespaces": {"x": n1, "y": n2}})
+    b1 = "[" + ctx + ',{"id":"x:homer","props":{"x:name":"Homer"}}]'
+    if i % 4 == 3:
+        b2 = "[" + ctx + ',{"id":"x:homer","props":{"x:name":"Homer","y:age":%d},"refs":{"y:knows":"x:marge"}},{"id":"x:marge","props":{"y:age":1}}]' % i
+    else:
+        b2 = "[" + ctx + ',{"id":"x:homer","props":{"x:name":"Homer","y:age":%d},"refs":{"y:knows":"x:marge"}}]' % i
+    return mk("http", b1, "public-ns", get=rng.choice(["changes", "entities"]), public=[n1, n2], getfirst=(i % 5 != 4), body2=b2,
+              restart=(i % 6 == 5))
+
+
 def restart_case(rng, i):
     """POST a payload that introduces NEW namespaces, restart the hub, (POST a payload with ANOTHER new namespace,) GET, parse back"""
     n1 = "http://new%d.org/r/" % rng.range(1, 99)
@@ -600,6 +661,15 @@ def witness_cases():
         mk("http", '[{"id":"@context","namespaces":{"x":"http://example.org/b/"}},{"id":"x:homer","props":{"x:name":"Homer"}}]',
            "w-restart-post", get="changes", restart=True,
            body2='[{"id":"@context","namespaces":{"z":"http://example.org/c/"}},{"id":"z:bart","props":{"z:name":"Bart"}}]'),
+        # one source object, pages whose contexts differ; a dataset with publicNamespaces updated under a new namespace
+        {"mode": "source", "body": "", "b64": False, "kind": "w-source-pages", "pages": [
+            '[{"id":"@context","namespaces":{"p":"http://one.example/schema/"}},{"id":"p:e1","props":{"p:name":"one"},"refs":{"p:knows":"p:e0"}}]',
+            '[{"id":"@context","namespaces":{"p":"http://two.example/schema/"}},{"id":"p:e2","props":{"p:name":"two"},"refs":{"p:knows":"p:e0"}}]',
+            '[{"id":"@context","namespaces":{}},{"id":"p:e3","props":{"p:name":"three"}}]']},
+        mk("http", '[{"id":"@context","namespaces":{"x":"http://data.example.org/people/"}},{"id":"x:homer","props":{"x:name":"Homer"}}]',
+           "w-public-ns", get="entities", public=["http://data.example.org/people/", "http://data.example.org/schema/"], getfirst=True,
+           body2='[{"id":"@context","namespaces":{"x":"http://data.example.org/people/","y":"http://data.example.org/schema/"}},'
+                 '{"id":"x:homer","props":{"x:name":"Homer","y:age":39}}]'),
         # fine
         S('{"id":"a:1","props":{"a:n":"x","k":[1,true,{"id":"z"}],"nul":null},"refs":{"a:r":"a:2","rr":["http://o/x#y","b"]},'
           '"deleted":true,"recorded":12}, {"id":"@continuation","token":"abc"}', "w-ok"),
@@ -614,10 +684,10 @@ def corpus_cases():
 
 def gen(rng, tier):
     out = []
-    n_valid, n_mut, n_text, n_rand, n_txn, n_http, n_adv, n_proxy, n_restart = {
-        "quick": (50, 100, 50, 50, 50, 32, 40, 72, 10),
-        "search": (40, 200, 100, 60, 80, 30, 80, 120, 16),
-        "thorough": (500, 1500, 800, 800, 600, 200, 400, 600, 60),
+    n_valid, n_mut, n_text, n_rand, n_txn, n_http, n_adv, n_proxy, n_restart, n_source = {
+        "quick": (50, 100, 50, 50, 50, 32, 40, 72, 10, 28),
+        "search": (40, 200, 100, 60, 80, 30, 80, 120, 16, 40),
+        "thorough": (500, 1500, 800, 800, 600, 200, 400, 600, 60, 240),
     }[tier]
     g = Gen(rng)
     for _ in range(n_valid):
@@ -654,6 +724,10 @@ def gen(rng, tier):
         out.append(proxy_page_case(rng, g, i))
     for i in range(n_restart):
         out.append(restart_case(rng, i))
+    for i in range(n_restart):
+        out.append(public_case(rng, i))
+    for i in range(n_source):
+        out.append(source_case(rng, g, i))
     for i in range(n_txn):
         t = g.txn()
         kind = "txn-valid"
@@ -701,10 +775,12 @@ def attribute(c, o):
 
 
 def size(c):
-    return len(c["body"])
+    return len(c["body"]) + sum(len(p) for p in c.get("pages") or []) + len(c.get("body2") or "")
 
 
 def classify(c, o):
+    if c["mode"] == "source":
+        return "past-context"
     toks = (o.get("post") or o).get("tokens") or []
     return "past-context" if len(toks) > 8 else None
 
